@@ -314,6 +314,27 @@ class Interpreter(BaseInterpreter[TContext, TEvent]):
         for plugin in self._plugins:
             plugin.on_interpreter_stop(self)
 
+        # 🔌 Terminate the main event processing loop FIRST.
+        #
+        # 🏛️ Architecture decision: the sweeps below yield to the event loop.
+        #    While the run loop was still alive it kept executing the
+        #    macrostep it was in, and the states it entered meanwhile armed
+        #    NEW timers and services after `cancel_all()` had already
+        #    collected its list - tasks that outlived `stop()`. With the run
+        #    loop gone nothing can be armed behind the sweep's back.
+        loop_task = self._event_loop_task
+        if loop_task and loop_task is not asyncio.current_task():
+            loop_task.cancel()
+            # Wait for the loop to acknowledge the cancellation to prevent leaks.
+            try:
+                await loop_task
+            except asyncio.CancelledError:
+                logger.debug(
+                    "Event loop task for '%s' acknowledged cancellation.",
+                    self.id,
+                )
+        self._event_loop_task = None
+
         # 🛑 Stop all child actors recursively.
         #
         # 🧵 Iterate over a SNAPSHOT. Stopping a child yields to the event
@@ -326,19 +347,6 @@ class Interpreter(BaseInterpreter[TContext, TEvent]):
 
         # ❌ Cancel all background tasks (timers, services) owned by this interpreter.
         await self.task_manager.cancel_all()
-
-        # 🔌 Terminate the main event processing loop.
-        if self._event_loop_task:
-            self._event_loop_task.cancel()
-            # Wait for the loop to acknowledge the cancellation to prevent leaks.
-            try:
-                await self._event_loop_task
-            except asyncio.CancelledError:
-                logger.debug(
-                    "Event loop task for '%s' acknowledged cancellation.",
-                    self.id,
-                )
-            self._event_loop_task = None
 
         logger.info("✅ Interpreter '%s' stopped successfully.", self.id)
 
